@@ -181,6 +181,40 @@ def run(R):
         R.gate("C05.target.def", dt, RetSink("true"), [[FieldOptGuard("target_record", ("None",), "no expected value given")]],
                descr="unconditional `true` only when the caller gave no expected value")
 
+    if dt is not None:
+        # what "matches" means: whole-record equality (or, for registers, base register and op set) — not a comparison of parts
+        prep(dt)
+        from flow import backward_calls
+        cs = compare_sites(dt)
+        eqs = [c for c in cs if c["op"] == "Eq"]
+        okm = True
+        kinds = []
+        for c in eqs:
+            ta_, tb_ = dt.locals.get(str(op_local(c["a"])), ""), dt.locals.get(str(op_local(c["b"])), "")
+            la, _ = backward_calls(dt, op_local(c["a"]))
+            lb, _ = backward_calls(dt, op_local(c["b"]))
+            fa = {p[-1] for d, r, p in field_reads(dt, "key") + field_reads(dt, "value") + field_reads(dt, "publisher") + field_reads(dt, "expires") if d in la | lb}
+            if "Record" in ta_ and "Record" in tb_ and "Register" not in ta_:
+                kinds.append("record==record")
+                if fa:
+                    okm = False
+                    R.viol("C05.target.match", "partial-compare", "does_target_match compares only %s of the records, not the whole record" % sorted(fa), dt, c["line"])
+            elif "Register" in ta_ or "BTreeSet" in ta_:
+                kinds.append("register-part")
+            else:
+                kinds.append("other:" + ta_[:40])
+        need = {"record==record": 1, "register-part": 2}
+        for k, n_ in need.items():
+            if kinds.count(k) < n_:
+                okm = False
+                R.viol("C05.target.match", "compare-missing:%s" % k, "does_target_match lacks the %s comparison(s) (found %s)" % (k, kinds), dt, dt.lines[0])
+        rb = [b for b in dt.blocks if b["term"]["k"] == "call" and callee_matches(b["term"], ["ant_registers::register::SignedRegister::base_register"])]
+        ro = [b for b in dt.blocks if b["term"]["k"] == "call" and callee_matches(b["term"], ["ant_registers::register::SignedRegister::ops"])]
+        if len(rb) != 2 or len(ro) != 2:
+            okm = False
+            R.viol("C05.target.match", "register-compare", "for registers does_target_match must compare base_register() and ops() of both sides", dt, dt.lines[0])
+        R.inst("C05.target.match", "K10 polarity", "match = whole-record equality, or (base register, op set) equality for registers", len(eqs), okm, {"comparisons": kinds})
+
     # (4) one outcome per waiting caller
     n_sites = 0
     for nm, b in (("acc", acc), ("fin", fin), ("err", err)):
